@@ -177,7 +177,10 @@ func runC10(c *c10Case, rec *ev.Recorder) *failure {
 		}
 		cls("unmarshal:ok")
 		var rs *jsonschema.Resolved
-		if f := guard(func() *failure { rs, err = resolveGuarded(&s, &jsonschema.ResolveOptions{ValidateDefaults: c.Defaults}); return nil }); f != nil {
+		if f := guard(func() *failure {
+			rs, err = resolveGuarded(&s, &jsonschema.ResolveOptions{ValidateDefaults: c.Defaults})
+			return nil
+		}); f != nil {
 			return failf("Resolve panics on the unmarshaled document %q\n%s", c.Bytes, f.Msg)
 		}
 		if err != nil {
@@ -459,7 +462,24 @@ func TestC10(t *testing.T) {
 	defer finish(rec)
 	rec.Describe("case = one of four targets. unmarshal: a grammar-generated schema document of either draft with 0-3 type confusions (value replaced by null / arbitrary JSON / wrapped in array or object, key renamed to $ref/$id/items/...), truncation, a 3000-deep nesting or one of ~45 hostile snippets; then Resolve (optionally ValidateDefaults), then Validate and ApplyDefaults on 1-3 instances of any shape in any Go representation. graph: a Schema graph from the reflection-driven generator in wild mode (shared and cyclic subschema pointers, nil children in slices/maps, malformed URIs/regexps/anchors, conflicting fields, bad default bytes), BaseURI empty/absolute/with fragment/garbage/relative/urn, Loader nil/erroring/returning a wrong document/returning the root itself. for: ForType on arbitrary types incl. recursive and mutually recursive pool types and unsupported kinds at any depth, both IgnoreInvalidTypes settings. universe: a C03 universe with loaders that fail every other call, serve rotated documents, return the root, or are nil; odd BaseURIs; fault sets. Oracle: the call returns (recover + 20s deadline); every case is journalled before it runs so a fatal error leaves a replay. Non-trivial: the input got past the first validation layer (Unmarshal succeeded / Resolve succeeded / ForType reached a struct). Distinct = distinct case.",
 		"out of domain and never generated: loaders returning (nil, nil), infinite universes, nil *Schema receivers, non-pointer arguments to ApplyDefaults, non-JSON-shaped instances, and Validate on graphs with an in-place reference cycle (the property's proviso; detected through the verif hook, without hooks Validate runs only on reference-free graphs)")
-	rapid.Check(t, func(t *rapid.T) {
+	rapid.Check(t, propC10(rec))
+}
+
+func init() {
+	replayers["C10"] = func(raw json.RawMessage) *failure {
+		var c c10Case
+		if err := json.Unmarshal(raw, &c); err != nil {
+			return failf("REPLAY-HARNESS-ERROR: %v", err)
+		}
+		fixNils(c.Instances)
+		return checkC10(&c, nil)
+	}
+}
+
+// propC10 is the property body, shared by TestC10 (rapid) and FuzzC10 (native fuzzing over
+// rapid's bit stream).
+func propC10(rec *ev.Recorder) func(t *rapid.T) {
+	return func(t *rapid.T) {
 		c := genC10(t)
 		ev.Journal("C10", c)
 		fl := checkC10(c, rec)
@@ -475,16 +495,5 @@ func TestC10(t *testing.T) {
 			report(t, rec, c, fl)
 		}
 		rec.Case()
-	})
-}
-
-func init() {
-	replayers["C10"] = func(raw json.RawMessage) *failure {
-		var c c10Case
-		if err := json.Unmarshal(raw, &c); err != nil {
-			return failf("REPLAY-HARNESS-ERROR: %v", err)
-		}
-		fixNils(c.Instances)
-		return checkC10(&c, nil)
 	}
 }
